@@ -16,6 +16,11 @@ BG = "magpylib/_src/obj_classes/class_BaseGeo.py"
 # (property, name, file, old, new, expect)   expect: "red" | "equivalent" (must stay green)
 FD = "magpylib/_src/fields/"
 MUTANTS = [
+    ("C06", "segment-early-return-before-JM", FD + "field_BH_cylinder_segment.py",
+     '    if field == "J":\n        BHJM[~mask_inside] = 0\n        return BHJM\n\n    if field == "M":\n        BHJM[~mask_inside] = 0\n        return BHJM / MU0\n\n    # return 0 when all points are on surface\n    if not np.any(mask_not_on_surf):\n        return BHJM * 0\n',
+     '    # return 0 when all points are on surface\n    if not np.any(mask_not_on_surf):\n        return BHJM * 0\n\n    if field == "J":\n        BHJM[~mask_inside] = 0\n        return BHJM\n\n    if field == "M":\n        BHJM[~mask_inside] = 0\n        return BHJM / MU0\n', "red"),
+    ("C06", "cylinder-B-all-instead-of-any", FD + "field_BH_cylinder.py", "        if any(mask_tv_inside):  # tv computes H-field", "        if all(mask_tv_inside):", "red"),
+    ("C06", "circle-axis-case-needs-all", FD + "field_BH_circle.py", "    if np.any(mask3):", "    if np.all(mask3):", "red"),
     ("C02", "cuboid-H-not-on-edge", FD + "field_BH_cuboid.py", "        BHJM[mask_inside] -= polarization[mask_inside]\n",
      "        BHJM[mask_inside & mask_not_edge] -= polarization[mask_inside & mask_not_edge]\n", "red"),
     ("C02", "sphere-H-two-thirds", FD + "field_BH_sphere.py", "        BHJM[~out] -= polarization[~out]\n", "        BHJM[~out] -= polarization[~out] * (2 / 3)\n", "red"),
